@@ -30,6 +30,13 @@ func (m *wireMon) checkBufferedIdle() {
 			return
 		}
 		total := 0
+		unregistered := false
+		inProgress := false // a (blocking) write has been counted by its stream but is not queued yet
+		for _, q := range m.x.odd {
+			if q.from == side && !q.done {
+				inProgress = true
+			}
+		}
 		for _, d := range m.x.dirs {
 			if d.from != side || d.tx == nil {
 				continue
@@ -39,20 +46,38 @@ func (m *wireMon) checkBufferedIdle() {
 				if !q.done || q.err == nil {
 					written += q.size
 				}
+				if !q.done {
+					inProgress = true
+				}
 			}
 			acked := m.s[side].ackedBytes[d.sid]
 			model := written - acked
 			got := int(accStreamBuffered(d.tx.s))
 			total += got
 			m.count("c15.idle-stream-checked")
+			if got != model && !accStreamRegistered(ep.assoc, d.tx.s) && got > model {
+				// the stream identifier was reset (closed by both ends) before the last acknowledgements
+				// arrived: the association no longer finds the Stream object to release the bytes
+				unregistered = true
+				w.violate("C15", "closed-stream-buffered-stuck", "%s stream %d: BufferedAmount=%d at an idle point although written %d - acknowledged %d = %d; the stream was reset and removed from the association before its data was acknowledged", ep.name, d.sid, got, written, acked, model)
+				if w.stopped() {
+					return
+				}
+				continue
+			}
 			if got != model {
 				w.violate("C15", "stream-buffered-mismatch", "%s stream %d: BufferedAmount=%d at an idle point, but written %d - acknowledged %d = %d", ep.name, d.sid, got, written, acked, model)
 				return
 			}
 		}
-		if a := accBufferedAmount(ep.assoc); a != total && len(m.x.tails) == 0 {
-			psz, pb := accPending(ep.assoc)
-			isz, ib := accInflight(ep.assoc)
+		// (scenarios that drive their streams themselves, like the close / re-open cycles, do not list them in x.dirs)
+		psz, pb := accPending(ep.assoc)
+		isz, ib := accInflight(ep.assoc)
+		if real := accInflightActual(ep.assoc); real != ib {
+			w.violate("C15", "inflight-counter-mismatch", "%s: the in-flight byte counter is %d but the %d chunks in flight hold %d unacknowledged user bytes", ep.name, ib, isz, real)
+			return
+		}
+		if a := accBufferedAmount(ep.assoc); a != total && len(m.x.tails) == 0 && len(m.x.dirs) > 0 && !inProgress && !unregistered {
 			w.violate("C15", "assoc-buffered-mismatch", "%s: Association.BufferedAmount=%d (pending %d chunks/%dB, in flight %d chunks/%dB) but the streams add up to %d", ep.name, a, psz, pb, isz, ib, total)
 			return
 		}
@@ -262,3 +287,41 @@ func scenarioBufferedLow(w *world) {
 	w.logMu.Unlock()
 	x.finalChecks(mon)
 }
+
+// dBufferedAfterReset: A writes one message and closes the stream at once; B closes its side on EOF.
+// The reset handshake completes before the delayed SACK for the message arrives. Witness of KF8.
+func dBufferedAfterReset(w *world) {
+	x, mon, ok := directedStart(w, directedConfig(w, false))
+	if !ok {
+		return
+	}
+	_ = mon
+	d := &xferDir{sid: 1, from: 0, relType: ReliabilityTypeReliable, sizes: []int{10}, preopen: true}
+	x.dirs = []*xferDir{d}
+	x.start()
+	w.sim.spawnClient("closer.A", "A", func() {
+		for !d.writerDone {
+			h := vsimBlocking("client.sleep")
+			time.Sleep(time.Millisecond)
+			vsimWoke(h)
+		}
+		_ = d.tx.s.Close()
+	})
+	w.sim.spawnClient("closer.B", "B", func() {
+		for d.rx == nil || !d.rx.readerDone {
+			h := vsimBlocking("client.sleep")
+			time.Sleep(time.Millisecond)
+			vsimWoke(h)
+		}
+		_ = d.rx.s.Close()
+	})
+	w.run(func() bool { return false }, w.now()+3*time.Second)
+	if w.stopped() {
+		return
+	}
+	mon.checkBufferedIdle()
+	w.net.heal()
+	w.quiesce(time.Second)
+}
+
+func init() { registerScenario("D_buffered_after_reset", dBufferedAfterReset) }
